@@ -537,6 +537,16 @@ func init() {
 		x.thSwap("B", []int{0}, "")
 		x.thSwap("C", []int{0}, "")
 	}, oracle: oracleC01([]int{0})})
+	addScn(&schedScn{name: "S11-failedmelt-poll-remelt-swap", prop: "C01", setup: func(x *schedX) {
+		// the payment of a pending melt has failed; a poll releases "the quote's" pending inputs while a NEW melt on the same
+		// quote (other input, payment goes in flight) is accepted in between; a swap then tries that other input
+		must(x.w, "fund|8,8", "meltq|4", "melt|0|0|P")
+		x.w.LN.Payments[x.w.Melts[0].Hash].Status = lnmodel.Failed
+		x.w.LN.PayScript[x.w.Melts[0].Hash] = []lnmodel.Answer{lnmodel.Pending}
+		x.thPollMelt("A", 0)
+		x.thMelt("B", 0, []int{1})
+		x.thSwap("C", []int{1}, "")
+	}, oracle: oracleC01([]int{1})})
 	addScn(&schedScn{name: "S7-swap-swap-melt", prop: "C01", setup: func(x *schedX) {
 		must(x.w, "fund|8,8", "meltq|4")
 		x.thSwap("A", []int{0}, "")
